@@ -38,6 +38,16 @@ impl Drop for Guarded { fn drop(&mut self) { unsafe { libc::munmap(self.base as 
 fn announce(tag: &str) { let mut o = std::io::stdout(); let _ = writeln!(o, "CASE {}", tag); let _ = o.flush(); }
 
 /// mz_deflate under an (avail_in, avail_out) schedule vs the Rust `deflate()` driven identically.
+/// one C stream call for the `CCALL` correspondence: the stream fields before and after, the return
+/// code, what `try_new` looks at, and the result of the same call on the Rust API
+#[allow(clippy::too_many_arguments)]
+fn ccall_line(ctx: &mut Ctx, id: usize, kind: &str, pre: (usize, u32, u64, usize, u32, u64), flush: i32, rc: i32, post: (usize, u32, u64, usize, u32, u64), inull: bool, onull: bool, kind_ok: bool, state: bool, rust: (i32, usize, usize)) {
+    ctx.count("ccall_lines");
+    ctx.line(&format!("CCALL id={} what={} ni={} ai={} ti={} no={} ao={} to={} flush={} rc={} ni2={} ai2={} ti2={} no2={} ao2={} to2={} inull={} onull={} kind={} state={} rst={} rcons={} rwr={}",
+        id, kind, pre.0, pre.1, pre.2, pre.3, pre.4, pre.5, flush, rc, post.0, post.1, post.2, post.3, post.4, post.5, inull as u8, onull as u8, kind_ok as u8, state as u8, rust.0, rust.1, rust.2));
+}
+fn fields(s: &mz_stream) -> (usize, u32, u64, usize, u32, u64) { (s.next_in as usize, s.avail_in, s.total_in as u64, s.next_out as usize, s.avail_out, s.total_out as u64) }
+
 fn deflate_schedule(ctx: &mut Ctx, data: &[u8], level: i32, wb: i32, strategy: i32, seed: u64) {
     let id = ctx.id();
     let replay = format!("CDEFL level={} wb={} strategy={} seed={} in={}", level, wb, strategy, seed, hex(data));
@@ -67,7 +77,9 @@ fn deflate_schedule(ctx: &mut Ctx, data: &[u8], level: i32, wb: i32, strategy: i
             s.next_out = outb.ptr; s.avail_out = aout as u32;
             let (ti, to) = (s.total_in, s.total_out);
             let (ni, no) = (s.next_in as usize, s.next_out as usize);
+            let pre = fields(&s);
             let rc = mz_deflate(&mut s, flush);
+            let post = fields(&s);
             let used_in = ain - s.avail_in as usize; let used_out = aout - s.avail_out as usize;
             ctx.count("c_deflate_calls");
             if s.avail_in as usize > ain || s.avail_out as usize > aout { ctx.violation(id, "accounting", format!("call #{}: avail grew", call), replay.clone()); break; }
@@ -80,6 +92,7 @@ fn deflate_schedule(ctx: &mut Ctx, data: &[u8], level: i32, wb: i32, strategy: i
             let rr = deflate(&mut rust, &data[ipos..ipos + ain], &mut ro, MZFlush::new(flush).unwrap());
             rout.extend_from_slice(&ro[..rr.bytes_written]);
             let rrc = match rr.status { Ok(s) => s as i32, Err(e) => e as i32 };
+            ccall_line(ctx, id, "deflate", pre, flush, rc, post, false, false, true, true, (rrc, rr.bytes_consumed, rr.bytes_written));
             if rrc != rc || rr.bytes_consumed != used_in || rr.bytes_written != used_out || ro[..used_out] != outb.slice()[..used_out] {
                 ctx.violation(id, "same", format!("call #{} (in {} out {} flush {}): C returned {} ({}/{}), Rust returned {} ({}/{})", call, ain, aout, flush, rc, used_in, used_out, rrc, rr.bytes_consumed, rr.bytes_written), replay.clone()); break;
             }
@@ -121,7 +134,9 @@ fn inflate_schedule(ctx: &mut Ctx, z: &[u8], wb: i32, seed: u64, tag: &str) {
             s.next_out = outb.ptr; s.avail_out = aout as u32;
             let (ti, to) = (s.total_in, s.total_out);
             let (ni, no) = (s.next_in as usize, s.next_out as usize);
+            let pre = fields(&s);
             let rc = mz_inflate(&mut s, flush);
+            let post = fields(&s);
             ctx.count("c_inflate_calls");
             if s.avail_in as usize > ain || s.avail_out as usize > aout { ctx.violation(id, "accounting", format!("call #{}: avail grew", call), replay.clone()); break; }
             let used_in = ain - s.avail_in as usize; let used_out = aout - s.avail_out as usize;
@@ -131,6 +146,7 @@ fn inflate_schedule(ctx: &mut Ctx, z: &[u8], wb: i32, seed: u64, tag: &str) {
             let mut ro = vec![0u8; aout];
             let rr = inflate(&mut rust, &z[ipos..ipos + ain], &mut ro, MZFlush::new(flush).unwrap());
             let rrc = match rr.status { Ok(s) => s as i32, Err(e) => e as i32 };
+            ccall_line(ctx, id, "inflate", pre, flush, rc, post, false, false, true, true, (rrc, rr.bytes_consumed, rr.bytes_written));
             if rrc != rc || rr.bytes_consumed != used_in || rr.bytes_written != used_out || ro[..used_out] != outb.slice()[..used_out] {
                 ctx.violation(id, "same", format!("call #{} (in {} out {} flush {}): C returned {} ({}/{}), Rust returned {} ({}/{})", call, ain, aout, flush, rc, used_in, used_out, rrc, rr.bytes_consumed, rr.bytes_written), replay.clone()); break;
             }
@@ -180,15 +196,28 @@ fn misuse(ctx: &mut Ctx) {
         mz_deflateInit(&mut s, 6);
         for f in [-1, 5, 6, 100] {
             s.next_in = data.as_ptr(); s.avail_in = data.len() as u32; s.next_out = out.as_mut_ptr(); s.avail_out = 200;
-            expect(ctx, &format!("mz_deflate(flush {})", f), mz_deflate(&mut s, f), -10000);
+            let pre = fields(&s); let rc = mz_deflate(&mut s, f); let post = fields(&s);
+            ccall_line(ctx, id, "misuse_flush", pre, f, rc, post, false, false, true, true, (0, 0, 0));
+            expect(ctx, &format!("mz_deflate(flush {})", f), rc, -10000);
             if s.avail_in != data.len() as u32 || s.avail_out != 200 || s.total_in != 0 { ctx.violation(id, "misuse", format!("mz_deflate(flush {}) moved the counters", f), replay.clone()); }
         }
-        s.next_in = std::ptr::null(); s.avail_in = 0; s.next_out = out.as_mut_ptr(); s.avail_out = 200;
-        expect(ctx, "mz_deflate(null next_in)", mz_deflate(&mut s, 0), -2);
-        s.next_in = data.as_ptr(); s.avail_in = data.len() as u32; s.next_out = std::ptr::null_mut(); s.avail_out = 0;
-        expect(ctx, "mz_deflate(null next_out)", mz_deflate(&mut s, 0), -2);
+        // NULL pointers, with a non-zero length left in the field: the length is written back as 0
+        for (k, ai) in [(0u32, 0u32), (1, 7)] {
+            let _ = k;
+            s.next_in = std::ptr::null(); s.avail_in = ai; s.next_out = out.as_mut_ptr(); s.avail_out = 200;
+            let pre = fields(&s); let rc = mz_deflate(&mut s, 0); let post = fields(&s);
+            ccall_line(ctx, id, "misuse_null_in", pre, 0, rc, post, true, false, true, true, (0, 0, 0));
+            expect(ctx, "mz_deflate(null next_in)", rc, -2);
+            s.next_in = data.as_ptr(); s.avail_in = data.len() as u32; s.next_out = std::ptr::null_mut(); s.avail_out = ai;
+            let pre = fields(&s); let rc = mz_deflate(&mut s, 0); let post = fields(&s);
+            ccall_line(ctx, id, "misuse_null_out", pre, 0, rc, post, false, true, true, true, (0, 0, 0));
+            expect(ctx, "mz_deflate(null next_out)", rc, -2);
+        }
+        s.next_in = data.as_ptr(); s.avail_in = data.len() as u32;
         s.next_out = out.as_mut_ptr(); s.avail_out = 200;
-        expect(ctx, "mz_inflate(on a deflate stream)", mz_inflate(&mut s, 0), -10000);
+        let pre = fields(&s); let rc = mz_inflate(&mut s, 0); let post = fields(&s);
+        ccall_line(ctx, id, "misuse_kind", pre, 0, rc, post, false, false, false, true, (0, 0, 0));
+        expect(ctx, "mz_inflate(on a deflate stream)", rc, -10000);
         expect(ctx, "mz_inflateEnd(on a deflate stream)", mz_inflateEnd(&mut s), -10000);
         unsafe extern "C" fn za(_: *mut libc::c_void, _: usize, _: usize) -> *mut libc::c_void { std::ptr::null_mut() }
         s.zalloc = Some(za);
